@@ -417,13 +417,12 @@ def _compress_tiles(
             # else have 1 chunk per "sample"
             _chunks = (1, *meta.tile.yx)
 
-        if data.chunksize != _chunks:
-            data = data.rechunk(_chunks)
+        # ``chunksize`` is the *largest* chunk per axis: irregular chunks can match it
+        data = data.rechunk(_chunks)  # no-op when already chunked that way
     else:
         assert meta.num_planes == 1
         src_ydim = 0
-        if data.chunksize != meta.chunks:
-            data = data.rechunk(meta.chunks)
+        data = data.rechunk(meta.chunks)  # no-op when already chunked that way
 
     encoder = _mk_tile_compressor(meta, sample_idx)
 
